@@ -214,7 +214,7 @@ func evalC17(cs *c17Case) (vs []*Violation) {
 	case "uriparams":
 		var l sipsp.URIParamsLst
 		if cs.Cap >= 0 {
-			l.Init(make([]sipsp.URIParam, cs.Cap))
+			l.Init(make([]sipsp.URIParam, cs.Cap, cs.Cap+2))
 		}
 		var n, cnt int
 		var e sipsp.ErrorHdr
@@ -270,7 +270,7 @@ func evalC17(cs *c17Case) (vs []*Violation) {
 	case "urihdrs":
 		var l sipsp.URIHdrsLst
 		if cs.Cap >= 0 {
-			l.Init(make([]sipsp.URIHdr, cs.Cap))
+			l.Init(make([]sipsp.URIHdr, cs.Cap, cs.Cap+2))
 		}
 		var n, cnt int
 		var e sipsp.ErrorHdr
@@ -434,12 +434,13 @@ func checkC17(r *Run) {
 			items = append(items, plItem{Name: n, HasEq: v.eq, Val: v.val})
 		}
 	}
-	lws := []string{" ", "\r\n ", "\t"}
+	lws3 := []string{" ", "\r\n ", "\t"}
+	lws := lws3
 	if !r.quick() {
-		lws = append(lws, "\n ", "\r\n\t")
+		lws = append(append([]string(nil), lws3...), "\n ", "\r\n\t")
 	}
 	modes := c17Modes()
-	cutEvery := r.pick(4, 1)
+	cutEvery := r.pick(4, 3)
 	run := func(c *enumCtx, cs *c17Case) {
 		if cs.Mode.Term == "sp" && len(cs.Items) > 0 {
 			l := cs.Items[len(cs.Items)-1]
@@ -537,6 +538,10 @@ func checkC17(r *Run) {
 						slots = append(slots, slot{k, 2}, slot{k, 3})
 					}
 				}
+				gl := lws
+				if len(idx) >= 3 {
+					gl = lws3 // 3-item lists: the three basic LWS forms only (budget)
+				}
 				var grec func(start, left int)
 				grec = func(start, left int) {
 					cs := base
@@ -546,7 +551,7 @@ func checkC17(r *Run) {
 						return
 					}
 					for s := start; s < len(slots); s++ {
-						for _, w := range lws {
+						for _, w := range gl {
 							base.Items[slots[s].it].G[slots[s].g] = w
 							grec(s+1, left-1)
 						}
@@ -591,6 +596,9 @@ func checkC17(r *Run) {
 			}
 		}
 	}
+	// the same lists at the very end of a buffer of exactly 65,535 bytes (the documented addressing limit): verdict,
+	// offset and items must be those of the list alone, shifted
+	c17AtLimit(r, modes)
 	// GetViaBrSig: depends only on the first branch parameter
 	c17Via(r)
 	cs := c17Case{Mode: modes[0], Items: []plItem{{Name: "branch", HasEq: true, Val: "z9hG4bK1", G: [4]string{"", " ", "", ""}, Seps: 2}, {Name: "lr"}}}
@@ -668,4 +676,106 @@ func init() {
 	register("C17", &checkDef{fn: checkC17,
 		rule:        "E4: generated parameter lists (0-3 items from name x value menus, LWS at every legal gap with <= 2 non-empty, empty items, leading separators) x 25 modes (separator x terminator x URI-param/URI-hdr x entry point), expectations by construction; all 256 byte values in name and value positions per mode; GetViaBrSig metamorphic (depends only on first branch value); non-trivial = lists with >= 1 item",
 		quickBudget: 120 * time.Second, thorBudget: 20 * time.Minute})
+}
+
+func c17AtLimit(r *Run, modes []plMode) {
+	lists := [][]plItem{
+		{{Name: "transport", HasEq: true, Val: "udp", Seps: 1}, {Name: "lr", Seps: 1}, {Name: "x", HasEq: true, Val: "\"a\\\";b\"", G: [4]string{" ", "", "", ""}}},
+		{{Name: "a", HasEq: true, Val: "", Seps: 2}, {Name: "TTL", HasEq: true, Val: "1", G: [4]string{"", " ", "\t", ""}}},
+		{{Name: "branch", HasEq: true, Val: "z9hG4bK1"}},
+	}
+	big := make([]byte, 65535)
+	for i := range big {
+		big[i] = 'j'
+	}
+	for _, m := range modes {
+		for _, its := range lists {
+			cs := &c17Case{Items: its, Mode: m, TermLWS: map[bool]string{true: " ", false: ""}[m.Term == "sp"], Cap: 8}
+			buf, _, _, _, _ := cs.render()
+			for _, total := range []int{65534, 65535} {
+				k := total - len(buf)
+				whole := append(append([]byte(nil), big[:k]...), buf...)
+				r.St.Evals++
+				r.St.Transitions += 2
+				var res [2]string
+				for w, b := range [][]byte{buf, whole} {
+					offs := 0
+					if w == 1 {
+						offs = k
+					}
+					switch m.Via {
+					case "tok":
+						var p sipsp.PTokParam
+						n, e := sipsp.ParseTokenParam(b, offs, &p, sipsp.POptFlags(m.Flags))
+						res[w] = fmt.Sprint(n-offs, e, int(p.Name.Offs)-offs, p.Name.Len, (int(p.Val.Offs)-offs)*btoi(p.Val.Len > 0), p.Val.Len)
+					case "uriparams":
+						var l sipsp.URIParamsLst
+						l.Init(make([]sipsp.URIParam, 8))
+						n, cnt, e := sipsp.ParseAllURIParams(b, offs, &l, sipsp.POptFlags(m.Flags))
+						res[w] = fmt.Sprint(n-offs, cnt, e, l.N, l.Types)
+					case "urihdrs":
+						var l sipsp.URIHdrsLst
+						l.Init(make([]sipsp.URIHdr, 8))
+						n, cnt, e := sipsp.ParseAllURIHdrs(b, offs, &l, sipsp.POptFlags(m.Flags))
+						res[w] = fmt.Sprint(n-offs, cnt, e, l.N)
+					}
+				}
+				if res[0] != res[1] {
+					c := mkCase("C17limit", "ParseTokenParam", &Cfg{Flags: m.Flags, Offs: k}, buf, nil)
+					c.Extra = map[string]any{"via": m.Via, "total": total}
+					r.Col.add(&Violation{Property: "C17", Site: map[string]string{"tok": "ParseTokenParam", "uriparams": "ParseAllURIParams", "urihdrs": "ParseAllURIHdrs"}[m.Via],
+						Rule: "same-result-at-the-end-of-a-65535-byte-buffer", Class: fmt.Sprintf("total=%d", total), Detail: fmt.Sprintf("alone %s at offset %d %s", res[0], k, res[1]), Case: c})
+				}
+			}
+		}
+	}
+}
+
+func btoi(b bool) int {
+	if b {
+		return 1
+	}
+	return 0
+}
+
+func init() {
+	replayers["C17limit"] = func(prop string, c *Case) []*Violation {
+		buf := c.input()
+		total := exInt(c.Extra, "total")
+		via, _ := c.Extra["via"].(string)
+		k := total - len(buf)
+		big := make([]byte, k)
+		for i := range big {
+			big[i] = 'j'
+		}
+		whole := append(big, buf...)
+		var res [2]string
+		for w, b := range [][]byte{buf, whole} {
+			offs := 0
+			if w == 1 {
+				offs = k
+			}
+			switch via {
+			case "tok":
+				var p sipsp.PTokParam
+				n, e := sipsp.ParseTokenParam(b, offs, &p, sipsp.POptFlags(c.Cfg.Flags))
+				res[w] = fmt.Sprint(n-offs, e, int(p.Name.Offs)-offs, p.Name.Len, (int(p.Val.Offs)-offs)*btoi(p.Val.Len > 0), p.Val.Len)
+			case "uriparams":
+				var l sipsp.URIParamsLst
+				l.Init(make([]sipsp.URIParam, 8))
+				n, cnt, e := sipsp.ParseAllURIParams(b, offs, &l, sipsp.POptFlags(c.Cfg.Flags))
+				res[w] = fmt.Sprint(n-offs, cnt, e, l.N, l.Types)
+			case "urihdrs":
+				var l sipsp.URIHdrsLst
+				l.Init(make([]sipsp.URIHdr, 8))
+				n, cnt, e := sipsp.ParseAllURIHdrs(b, offs, &l, sipsp.POptFlags(c.Cfg.Flags))
+				res[w] = fmt.Sprint(n-offs, cnt, e, l.N)
+			}
+		}
+		if res[0] != res[1] {
+			site := map[string]string{"tok": "ParseTokenParam", "uriparams": "ParseAllURIParams", "urihdrs": "ParseAllURIHdrs"}[via]
+			return []*Violation{{Property: prop, Site: site, Rule: "same-result-at-the-end-of-a-65535-byte-buffer", Class: fmt.Sprintf("total=%d", total), Case: c}}
+		}
+		return nil
+	}
 }
